@@ -3,6 +3,7 @@ package props
 import (
 	"bytes"
 	"fmt"
+	"iter"
 	"sort"
 	"strings"
 
@@ -78,6 +79,58 @@ func execC06Ref(c *Case, ref []fmts.Item, haveRef bool) *Verdict {
 		st := sim.NewStream(toCRLF(c.Input), plan)
 		out := sim.Consume(f.Reader(st), never, len(ref)+sim.LiveB)
 		return diffVerdict("C06.crlf", f.Name, ref, out)
+	case "C06.interleaved":
+		// two decodes alive at the same time (as in a nested or lock-step loop), after one
+		// decode has already run to the end in this process; each must equal its own reference
+		ref2, ok := refOf(f, c.Input2)
+		if !ok {
+			return nil
+		}
+		plan := sim.Plan{}
+		if c.Plan != nil {
+			plan = *c.Plan
+		}
+		next1, stop1 := iter.Pull(f.Reader(sim.NewStream(c.Input, plan)))
+		next2, stop2 := iter.Pull(f.Reader(sim.NewStream(c.Input2, plan)))
+		var a, b []fmts.Item
+		var pan any
+		func() {
+			defer func() { pan = recover() }()
+			defer stop1()
+			defer stop2()
+			for live1, live2 := true, true; live1 || live2; {
+				if live1 {
+					if it, ok := next1(); ok {
+						a = append(a, it)
+					} else {
+						live1 = false
+					}
+				}
+				if live2 {
+					if it, ok := next2(); ok {
+						b = append(b, it)
+					} else {
+						live2 = false
+					}
+				}
+				if len(a) > len(ref)+sim.LiveB || len(b) > len(ref2)+sim.LiveB {
+					panic(sim.StepCap{What: "items"})
+				}
+			}
+		}()
+		out := sim.Outcome[fmts.Item]{Items: a, Completed: pan == nil}
+		if pan != nil {
+			if sc, ok := pan.(sim.StepCap); ok {
+				out.Capped = sc.What
+			} else {
+				out.Panic = fmt.Sprint(pan)
+			}
+		}
+		if v := diffVerdict("C06.interleaved", f.Name, ref, out); v != nil {
+			return v
+		}
+		out.Items = b
+		return diffVerdict("C06.interleaved", f.Name, ref2, out)
 	case "C06.file":
 		cfg := *c.File
 		cfg.Ext = f.Ext
@@ -89,9 +142,11 @@ func execC06Ref(c *Case, ref []fmts.Item, haveRef bool) *Verdict {
 		cfg := *c.File
 		cfg.Ext = f.Ext
 		path, cleanup := Disk.Materialise(&cfg, c.Input)
-		defer cleanup()
+		defer func() { cleanup() }()
 		out := sim.Consume(f.File(path), never, sim.LiveB)
 		clause := "C06.unopenable." + cfg.Kind
+		cleanup() // (for emfile: give the descriptors back before anything else happens)
+		cleanup = func() {}
 		if out.Panic != "" || out.Capped != "" {
 			return diffVerdict(clause, f.Name, nil, out)
 		}
@@ -399,6 +454,9 @@ func RunC06(ctx *core.Ctx, r *core.Rng) {
 	// Clause 3: File == Reader, plain and .gz.
 	if sz != fmts.Large || r.Chance(0.5) {
 		cfgs := []sim.FileCfg{{Kind: "plain"}, {Kind: "gz", Level: core.Pick(r, []int{0, 1, 6, 9})}}
+		if r.Chance(0.06) && len(input) < 60000 {
+			cfgs = append(cfgs, sim.FileCfg{Kind: "fifo"}) // a named pipe: size 0, not seekable
+		}
 		if r.Chance(0.35) {
 			cfgs = append(cfgs, sim.FileCfg{Kind: "gz2", Level: core.Pick(r, []int{0, 1, 6, 9}), Split: r.Range(0, len(input))})
 		}
@@ -429,14 +487,31 @@ func RunC06(ctx *core.Ctx, r *core.Rng) {
 	}
 	ctx.Stats.Inc("config/" + f.Name + "/reader_on_memory")
 
+	// Clause 5: two decodes interleaved.
+	if r.Chance(0.12) && len(input) < 20000 {
+		doc2 := f.Gen(r, core.Pick(r, []fmts.Size{fmts.Small, fmts.Multi}))
+		plan := genPlan(r, core.Pick(r, planStyles), input, f.Special)
+		c := &Case{Clause: "C06.interleaved", Format: f.Name, Input: input, Input2: doc2.Render("\n"), Plan: &plan}
+		v := execC06Ref(c, ref, true)
+		ctx.EvalN(2)
+		ctx.Stats.Inc("fault_fired/two_decodes_alive_at_the_same_time")
+		if v != nil {
+			ctx.EvS(v.Key)
+			report(ctx, c, v)
+		}
+	}
+
 	// Clause 4: unopenable paths.
 	if r.Chance(0.15) {
-		for _, k := range []string{"missing", "missing-parent", "through-file", "missing"} {
+		for _, k := range []string{"missing", "missing-parent", "through-file", "missing", "emfile"} {
 			cfg := sim.FileCfg{Kind: k}
 			if k == "missing" && r.Chance(0.5) {
 				cfg.Odd = core.Pick(r, oddNames) // e.g. "-": no such file, so an error, not standard input
 			}
 			c := &Case{Clause: "C06.unopenable", Format: f.Name, File: &cfg}
+			if k == "emfile" {
+				c.Input = input
+			}
 			v := execC06Ref(c, nil, true)
 			ctx.Eval()
 			ctx.Stats.Inc("fault_fired/unopenable_" + k)
